@@ -52,10 +52,34 @@ def C08():
     chk.units = [u.name for u in units]
     ents = r_grd.run(chk, units)
     chk.floor("R-GRD.a", len(ents), 14, "entry points with >=2 grid-carrying inputs")
+    # (d) the comparison used by the guards is logical grid equality, symmetric, for every way two grids can
+    # differ; and the refusing operations throw / leave operands unchanged on representative placements
+    from . import r_reg
+    chk.rule("R-REG.grid", "Grid::operator==/!= evaluated abstractly: equal iff same points (same object, copy, equal "
+                           "data in a distinct object) and unequal for every way two grids can differ, both operand "
+                           "orders")
+    chk.trust(*REG_TRUST)
+    u = units[1]
+    nmax = 6 if C.tier() == "thorough" else 4
+    tot = r_reg.run_jobs(chk, u, "R-REG.grid", _jobs("r_reg_sup", "grid_suite", range(2, nmax + 1), maxlen=nmax - 2,
+                                                     ctors=False))
+    tot += r_reg.run_jobs(chk, u, "R-REG.sup", _jobs("r_reg_sup", "support_suite", range(2, 5), nmax=4))
+    jobs = [("bsv.r_reg_spl", "arithmetic_suite", dict(nmax=4, order_pairs=(pr,), ns=[], fixed=True))
+            for pr in ((1, 1), (2, 1), (0, 2))]
+    jobs += _jobs("r_reg_spl", "lincomb_suite", [3], nmax=3)
+    tot += r_reg.run_jobs(chk, u, "R-REG.refuse", jobs)
+    chk.note("regions_evaluated", tot)
     return chk
 
 
 ALL["C08"] = C08
+
+
+def _jobs(mod, fn, ns, **kw):
+    """One job per grid size (fixed=False) plus one job for the size-independent cases."""
+    jobs = [("bsv." + mod, fn, dict(kw, ns=[n], fixed=False)) for n in ns]
+    jobs.append(("bsv." + mod, fn, dict(kw, ns=[], fixed=True)))
+    return jobs
 
 
 def C13():
@@ -72,15 +96,15 @@ def C13():
                "subtracts them or 0/1/2 (checked: anything else leaves the fragment -> exit 2), so its behaviour "
                "depends only on the order/adjacency/wrap type of {0,start,end,size,index}; every such type has a "
                "representative with size<=nmax or at the top of the 64-bit range")
-    nmax = 7 if C.tier() == "thorough" else 5
+    nmax = 8 if C.tier() == "thorough" else 6
     names = ["dbl_off", "dbl_on"] if C.tier() == "thorough" else ["dbl_off"]
     total = 0
     for n in names:
         u = F.load(n)
         chk.units.append(n)
-        w = r_reg.World(u)
-        total += r_reg_sup.support_suite(chk, w, "R-REG.sup", nmax)
-        total += r_reg_sup.grid_suite(chk, w, "R-REG.grid", 3 if C.tier() == "quick" else 4)
+        total += r_reg.run_jobs(chk, u, "R-REG.sup", _jobs("r_reg_sup", "support_suite", range(2, nmax + 1), nmax=nmax))
+        total += r_reg.run_jobs(chk, u, "R-REG.grid", _jobs("r_reg_sup", "grid_suite", range(2, nmax + 1),
+                                                            maxlen=nmax - 2, ctors=False))
     chk.note("oracle_self_check_triples", r_reg_sup.check_oracle(6 if C.tier() == "thorough" else 5))
     chk.note("regions_evaluated", total)
     chk.note("grid_size_bound", nmax)
@@ -90,3 +114,104 @@ def C13():
 
 
 ALL["C13"] = C13
+
+
+REG_TRUST = ("bsv-dump extraction (clang 14 AST of the instantiations in drivers/drv_double.cpp)",
+             "bsv/interp.py: semantics of the interpreted C++ subset and its models of std containers/algorithms",
+             "the specification functions in bsv/r_reg_*.py (written from the property statement)")
+REG_ASSUME = ("small-model argument: index code only compares its integer inputs and adds/subtracts them or small "
+              "constants (anything else leaves the fragment -> exit 2), so its behaviour depends only on the "
+              "order/adjacency type of the window bounds; all such types occur for grids up to the size bound",
+              "scalar arithmetic is abstracted to dependence sets: which inputs a result is computed from is decided, "
+              "the arithmetic performed with them is not")
+
+
+def _reg_unit_names():
+    return ["dbl_off", "dbl_on"] if C.tier() == "thorough" else ["dbl_off"]
+
+
+def C02():
+    from . import r_reg
+    chk = Check("C02", "other",
+                "R-REG (interval selection and end points): Spline::operator(), front, back evaluated abstractly for "
+                "every window, every abscissa position (each grid point, each gap, both outsides, unordered) and "
+                "orders 0..2; the result must be 0 outside the closed support and otherwise depend on exactly the "
+                "coefficients of ONE interval containing x and that interval's two end points. The Horner "
+                "arithmetic itself is not decided.")
+    chk.trust(*REG_TRUST)
+    chk.assume(*REG_ASSUME)
+    nmax = 7 if C.tier() == "thorough" else 5
+    total = 0
+    for n in _reg_unit_names():
+        u = F.load(n)
+        chk.units.append(n)
+        total += r_reg.run_jobs(chk, u, "R-REG.eval", _jobs("r_reg_spl", "eval_suite", range(2, nmax + 1), nmax=nmax,
+                                                            orders=(0, 1, 2, 3)))
+    chk.note("regions_evaluated", total)
+    chk.note("grid_size_bound", nmax)
+    chk.exhaustive = True
+    chk.floor("R-REG.eval", chk.rules["R-REG.eval"]["instances"], 5, "(function, clause) obligations")
+    return chk
+
+
+def C15():
+    from . import r_reg
+    chk = Check("C15", "other",
+                "R-REG (predicate logic): checkOverlap for all window pairs on one grid (same object / equal grid in "
+                "a distinct object) against 'share at least one interval'; isZero over coefficient outcomes "
+                "{zero, non-zero, unordered}; Spline/Support/Grid == and != against the statement, incl. symmetry, "
+                "reflexivity, copy-equality, and every way two grids can differ")
+    chk.trust(*REG_TRUST)
+    chk.assume(REG_ASSUME[0], "reflexivity needs coefficients that equal themselves (no NaN)")
+    nmax = 6 if C.tier() == "thorough" else 4
+    total = 0
+    for n in _reg_unit_names():
+        u = F.load(n)
+        chk.units.append(n)
+        total += r_reg.run_jobs(chk, u, "R-REG.pred", _jobs("r_reg_spl", "predicate_suite", range(2, nmax + 1),
+                                                            nmax=nmax))
+        total += r_reg.run_jobs(chk, u, "R-REG.grid", _jobs("r_reg_sup", "grid_suite", range(2, nmax + 1),
+                                                            maxlen=nmax - 2, ctors=False))
+        total += r_reg.run_jobs(chk, u, "R-REG.sup", _jobs("r_reg_sup", "support_suite", range(2, min(nmax, 4) + 1),
+                                                           nmax=min(nmax, 4)))
+    chk.note("regions_evaluated", total)
+    chk.exhaustive = True
+    chk.floor("R-REG.pred", chk.rules["R-REG.pred"]["instances"], 6, "(function, clause) obligations")
+    return chk
+
+
+def C03():
+    from . import r_reg
+    chk = Check("C03", "other",
+                "R-REG (framing of spline arithmetic): a*b, a+b, a-b, +=, -=, cross-order =, scalar forms and "
+                "linearCombination evaluated abstractly for all window placements (nested, overlapping, touching, "
+                "gap, point-like, interval-free; equal grids in distinct objects) and several order pairs; every "
+                "result coefficient must depend on exactly the operand coefficients of the same absolute interval "
+                "and power the pointwise operation prescribes, be the constant zero elsewhere, leave operands "
+                "unchanged and yield a valid spline. Signs and numeric values are not decided.")
+    chk.trust(*REG_TRUST)
+    chk.assume(*REG_ASSUME)
+    nmax = 6 if C.tier() == "thorough" else 4
+    pairs = ((1, 1), (2, 1), (1, 2), (0, 2), (3, 0), (2, 2), (0, 0), (3, 3)) if C.tier() == "thorough" else \
+        ((1, 1), (2, 1), (1, 2), (0, 2), (3, 0))
+    total = 0
+    for n in _reg_unit_names():
+        u = F.load(n)
+        chk.units.append(n)
+        jobs = []
+        for pr in pairs:
+            jobs += _jobs("r_reg_spl", "arithmetic_suite", range(3, nmax + 1), nmax=nmax, order_pairs=(pr,))
+        total += r_reg.run_jobs(chk, u, "R-REG.arith", jobs)
+        total += r_reg.run_jobs(chk, u, "R-REG.scalar", _jobs("r_reg_spl", "scalar_suite", range(2, nmax + 1),
+                                                              nmax=nmax))
+        total += r_reg.run_jobs(chk, u, "R-REG.lincomb", _jobs("r_reg_spl", "lincomb_suite", range(3, nmax + 1),
+                                                               nmax=nmax))
+    chk.note("regions_evaluated", total)
+    chk.note("grid_size_bound", nmax)
+    chk.note("order_pairs", [list(p) for p in pairs])
+    chk.exhaustive = True
+    chk.floor("R-REG.arith", chk.rules["R-REG.arith"]["instances"], 10, "(function, clause) obligations")
+    return chk
+
+
+ALL.update(C02=C02, C15=C15, C03=C03)
